@@ -12,7 +12,8 @@ Token formats (space separated decimal integers):
   SCRIPT := m CMD*m        answers of the 0th, 1st, … handler call of this op (then nil)
 Ops: `init root ncap cap* N`, `ev k n S SCRIPT`, `ev u n S SCRIPT`, `ev i S SCRIPT`,
   `upd T TREE S SCRIPT`, `render T TREE`, `setframe r T TREE`, `mouse col row S SCRIPT`,
-  `mupd T TREE S SCRIPT`, `mexit clear S SCRIPT`, `cmd C CMD S SCRIPT`, `hit col row T TREE`.
+  `mupd T TREE S SCRIPT`, `mexit clear S SCRIPT`, `tfin S SCRIPT` (terminal FocusIn arm of Run),
+  `cmd C CMD S SCRIPT`, `hit col row T TREE`.
 Result of a state op: `log;f=focus;p=path;x=flags;h=hits;m=mouse;t=titles`.
 The shared pieces (parsers, canonical forms, oracle checks) are also used by `Driver/C15Run`. -/
 namespace VaxisModel.Driver.C15
@@ -248,7 +249,7 @@ def commonChecks (prevF : Nat) (prevX : List Bool) (hover : List Nat) (script : 
                  else some s!"FAIL focus: last FocusIn went to {f'} but focused widget is {now.f.getD 0}"
     | none =>
       if focusOutAnsweredWithFocus script now.log
-      then some "FAIL focus-balance [refocus-in-focusout]: a FocusOut handler returned a focus command; FocusOut/FocusIn no longer pair up"
+      then some "FAIL focus-balance: a FocusOut handler returned a focus command; FocusOut/FocusIn no longer pair up"
       else some "FAIL focus-balance: FocusOut/FocusIn notifications do not pair up"
   let get (i : Nat) (l : List Bool) : Bool := l.getD i false
   let want (i : Nat) (as : List Atom) : Bool := get i prevX || as.any (atoms.contains ·)
@@ -303,6 +304,13 @@ def firstMsg (l : List (Option String)) : String :=
   | some m => m
   | none => "ok"
 
+/-- The path invariant evaluated on the implementation's state: `path` is the drawn chain (tree of
+the last `upd` / frame) of the widget that is focused now, `[root]` if it is not drawn. -/
+def pinvMsg (root : Nat) (tree : STree) (now : Impl) : Option String :=
+  let ep := expectedPath root tree (now.f.getD 0)
+  if now.p == ep then none
+  else some s!"FAIL path: path {now.p} is not the drawn chain {ep} of the focused widget {now.f.getD 0}"
+
 def hasFocusIn (log : List Entry) : Bool := log.any fun | .call _ .focusIn _ => true | _ => false
 
 /-- Run one op of the model from `d.model` with a fresh per-op trace and call counter. -/
@@ -322,19 +330,15 @@ def stepState (d : DS) (toks : Toks) (impl : String) : Option (DS × String) := 
     let now ← parseImpl impl
     let tr := implTrace script now.log
     let pf := d.prev.f.getD 0
-    let c1 := conforms ev pf (planOf o.captures d.prev.p .focusTgt) tr
+    let ep := expectedPath d.root d.lastTree pf
     let routeMsg : Option String :=
-      if !c1 then some s!"FAIL routing: calls do not follow capture/target/bubble over path {d.prev.p}"
-      else if !d.focusMoved then none   -- path was checked when it was computed (`upd`)
-      else match chain pf d.lastTree with
-        | none => none                   -- focus moved to a widget that is not drawn: no chain to compare with
-        | some _ =>
-          let ep := expectedPath d.root d.lastTree pf
-          if conforms ev pf (planOf o.captures ep .focusTgt) tr then none
-          else some s!"FAIL stale-path: focus moved to {pf} by a command since the last frame; routed over the old path {d.prev.p}, drawn chain is {ep}"
+      if conforms ev pf (planOf o.captures ep .focusTgt) tr then none
+      else if conforms ev pf (planOf o.captures d.prev.p .focusTgt) tr then
+        some s!"FAIL stale-path: routed over the stored path {d.prev.p}, but the drawn chain of the focused widget {pf} is {ep}"
+      else some s!"FAIL routing: calls do not follow capture/target/bubble over the drawn chain {ep} of the focused widget {pf}"
     let (cm, hov) := commonChecks pf d.prev.x d.hover script [] now (some false)
-    let v := firstMsg [routeMsg.filter (!·.startsWith "FAIL stale"), cm, routeMsg]
-    pure ({ d with model := m, prev := now, hover := hov, focusMoved := d.focusMoved || hasFocusIn now.log },
+    let v := firstMsg [routeMsg, cm, pinvMsg d.root d.lastTree now]
+    pure ({ d with model := m, prev := now, hover := hov },
       s!"{stateStr m}\t{impl}\t{v}")
   | "upd" :: rest =>
     let (t, rest) ← pTreeKw "T" rest
@@ -349,13 +353,10 @@ def stepState (d : DS) (toks : Toks) (impl : String) : Option (DS × String) := 
         if now.p != expectedPath d.root t pf then some s!"FAIL path: path {now.p} is not the drawn chain {expectedPath d.root t pf}"
         else if now.f != some pf ∨ !now.log.isEmpty then some "FAIL path: focus drawn but handlers were called"
         else none
-      | none => if now.p != [d.root] then some s!"FAIL path: focused widget not drawn but path is {now.p}" else none
+      | none => none
     let (cm, hov) := commonChecks pf d.prev.x d.hover script [] now none
-    -- a refocus inside the best-effort FocusIn/FocusOut handlers moves the focus after the path was computed
-    let moved := (now.log.filter fun | .call _ .focusIn _ => true | _ => false).length ≥ 2 ||
-      (match chain pf t with | none => now.f != some d.root | some _ => false)
-    pure ({ d with model := m, prev := now, hover := hov, lastTree := t, focusMoved := moved },
-      s!"{stateStr m}\t{impl}\t{firstMsg [pathMsg, cm]}")
+    pure ({ d with model := m, prev := now, hover := hov, lastTree := t },
+      s!"{stateStr m}\t{impl}\t{firstMsg [pathMsg, pinvMsg d.root t now, cm]}")
   | "setframe" :: r :: rest =>
     let (t, _) ← pTreeKw "T" rest
     let tm := if r = "1" then sortTree t else t
@@ -363,7 +364,8 @@ def stepState (d : DS) (toks : Toks) (impl : String) : Option (DS × String) := 
     let m := { fresh d.model with lastFrame := tm }
     let now ← parseImpl impl
     let (cm, hov) := commonChecks (d.prev.f.getD 0) d.prev.x d.hover [] [] now none
-    pure ({ d with model := m, prev := now, hover := hov, frameTree := ts }, s!"{stateStr m}\t{impl}\t{firstMsg [cm]}")
+    pure ({ d with model := m, prev := now, hover := hov, frameTree := ts },
+      s!"{stateStr m}\t{impl}\t{firstMsg [cm, pinvMsg d.root d.lastTree now]}")
   | "mouse" :: c :: r :: rest =>
     let c ← c.toInt?; let r ← r.toInt?
     let (script, _) ← pScript rest
@@ -384,8 +386,8 @@ def stepState (d : DS) (toks : Toks) (impl : String) : Option (DS × String) := 
         if conforms ev pf (planOf o.captures (now.h.map (·.w)) (.tgt tg.w)) routed then none
         else some s!"FAIL mouse-routing: calls do not follow capture/target/bubble over hit list {hitsStr now.h}"
     let (cm, hov) := commonChecks pf d.prev.x d.hover script [] now (if now.h.isEmpty then none else some false)
-    pure ({ d with model := m, prev := now, hover := hov, focusMoved := d.focusMoved || hasFocusIn now.log },
-      s!"{stateStr m}\t{impl}\t{firstMsg [hitMsg, routeMsg, cm]}")
+    pure ({ d with model := m, prev := now, hover := hov },
+      s!"{stateStr m}\t{impl}\t{firstMsg [hitMsg, routeMsg, cm, pinvMsg d.root d.lastTree now]}")
   | "mupd" :: rest =>
     let (t, rest) ← pTreeKw "T" rest
     let (script, _) ← pScript rest
@@ -400,8 +402,8 @@ def stepState (d : DS) (toks : Toks) (impl : String) : Option (DS × String) := 
           if now.h != wantHits then some s!"FAIL hit: hit list {hitsStr now.h} but surfaces under the pointer are {hitsStr wantHits}" else none
         | none => none
     let (cm, hov) := commonChecks (d.prev.f.getD 0) d.prev.x d.hover script [] now none
-    pure ({ d with model := m, prev := now, hover := hov, focusMoved := d.focusMoved || hasFocusIn now.log },
-      s!"{stateStr m}\t{impl}\t{firstMsg [hitMsg, cm]}")
+    pure ({ d with model := m, prev := now, hover := hov },
+      s!"{stateStr m}\t{impl}\t{firstMsg [hitMsg, cm, pinvMsg d.root d.lastTree now]}")
   | "mexit" :: cl :: rest =>
     let (script, _) ← pScript rest
     let o := mkOracle d.caps script
@@ -411,8 +413,19 @@ def stepState (d : DS) (toks : Toks) (impl : String) : Option (DS × String) := 
     let (cm, hov) := commonChecks (d.prev.f.getD 0) d.prev.x d.hover script [] now none
     let closeMsg : Option String :=
       if !hov.isEmpty ∨ !now.h.isEmpty then some s!"FAIL hover: widgets {hov} still entered after the pointer left" else none
-    pure ({ d with model := m, prev := now, hover := hov, focusMoved := d.focusMoved || hasFocusIn now.log },
-      s!"{stateStr m}\t{impl}\t{firstMsg [cm, closeMsg]}")
+    pure ({ d with model := m, prev := now, hover := hov },
+      s!"{stateStr m}\t{impl}\t{firstMsg [cm, closeMsg, pinvMsg d.root d.lastTree now]}")
+  | "tfin" :: rest =>
+    -- the vaxis.FocusIn arm of Run: mouseHandler.mouseEnter(root)
+    let (script, _) ← pScript rest
+    let o := mkOracle d.caps script
+    let m := mouseEnter o fuelDefault (fresh d.model) d.root
+    let now ← parseImpl impl
+    let (cm, hov) := commonChecks (d.prev.f.getD 0) d.prev.x d.hover script [] now none
+    let enterMsg : Option String :=
+      if !hov.contains d.root then some s!"FAIL hover: root widget {d.root} not entered after terminal FocusIn" else none
+    pure ({ d with model := m, prev := now, hover := hov },
+      s!"{stateStr m}\t{impl}\t{firstMsg [cm, enterMsg, pinvMsg d.root d.lastTree now]}")
   | "cmd" :: rest =>
     let rest ← pKw "C" rest
     let (c, rest) ← pCmd rest
@@ -423,8 +436,8 @@ def stepState (d : DS) (toks : Toks) (impl : String) : Option (DS × String) := 
     -- the command itself counts as the answer of a virtual call number -1: prepend its effects
     let pre := c.flatten
     let (cm, hov) := commonChecks (d.prev.f.getD 0) d.prev.x d.hover script pre now none
-    pure ({ d with model := m, prev := now, hover := hov, focusMoved := d.focusMoved || hasFocusIn now.log },
-      s!"{stateStr m}\t{impl}\t{firstMsg [cm]}")
+    pure ({ d with model := m, prev := now, hover := hov },
+      s!"{stateStr m}\t{impl}\t{firstMsg [cm, pinvMsg d.root d.lastTree now]}")
   | _ => none
 
 def step (d : DS) (line : String) : DS × String :=
